@@ -108,6 +108,12 @@ func (m *hsModel) feed(k rkind, pver int32, self bool, appMinPver uint32) (benig
 		if self && !m.allowSelf {
 			return fail("self-connection")
 		}
+		if pver < 0 {
+			// obsolete when read as the signed field it is, beyond every known version when read as
+			// unsigned: both the refusal and the acceptance are allowed; an accepting peer has negotiated
+			// its own version (checked from the listener trace in checkEndState)
+			return either("negative-version")
+		}
 		if uint32(pver) < pverMinAcceptable {
 			return fail("obsolete-version")
 		}
